@@ -5,6 +5,7 @@ mod conc;
 mod fuzz;
 mod seq;
 mod term;
+mod tok;
 
 use std::collections::BTreeMap;
 use std::io::{BufRead, Write};
@@ -22,6 +23,7 @@ fn main() {
     "seq-fuzz" => seq_fuzz(),
     "conc" => conc_explore(),
     "conc-one" => conc_one(),
+    "tok-all" => tok_all(),
     _ => {
       eprintln!("usage: harness seq-replay|seq-one ...");
       std::process::exit(2);
@@ -176,6 +178,21 @@ fn conc_explore() {
     std::fs::write(p, serde_json::to_string(&scheds).unwrap()).unwrap();
   }
   println!("{}", serde_json::json!({"cases": per_case}));
+}
+
+/// C17 "any emitted item": every item-holding operator x the three ways of ending, items are tokens; one ndjson line each
+fn tok_all() {
+  let only = arg("--op");
+  println!("{}", serde_json::json!({"ev": "reset", "op": "", "ending": "", "emitted": 0, "delivered": 0, "live": 0, "fin": "ok"}));
+  for op in tok::OPS {
+    if only.as_deref().map(|o| o != *op).unwrap_or(false) {
+      continue;
+    }
+    for ending in ["complete", "error", "unsub"] {
+      let r = tok::run_one(op, ending);
+      println!("{}", serde_json::json!({"ev": "tok", "op": r.op, "ending": r.ending, "emitted": r.emitted, "delivered": r.delivered, "live": r.live, "fin": r.fin}));
+    }
+  }
 }
 
 /// replay one schedule of one concurrent case: {"case": CCase, "strategy": {"dfs":[..]} | {"random": seed}}
